@@ -203,6 +203,51 @@ mod verif_kani {
         assert!(open_count() == 0 && unsafe { CLOSE_CALLS } == 1, "kani.ledger.backing_store_closed_once");
     }
 
+    // OsIpcSharedMemory::clone: one new close-on-exec descriptor, its own mapping; drop unmaps it and closes it once (C11, C05)
+    static mut MMAP_CALLS: usize = 0;
+    static mut MAP_BUF: [u8; 4] = [0; 4];
+    unsafe fn k_fcntl_dup(fd: c_int, cmd: c_int, _arg: c_int) -> c_int {
+        assert!(cmd == libc::F_DUPFD_CLOEXEC, "kani.ledger.duplicate_is_close_on_exec");
+        assert!(fd >= 0 && (fd as usize) < NFD && OPEN[fd as usize], "kani.ledger.duplicate_of_owned_descriptor");
+        alloc_fd()
+    }
+    unsafe fn k_dup_plain(fd: c_int) -> c_int {
+        // a plain dup() is inherited across exec
+        assert!(false, "kani.ledger.duplicate_is_close_on_exec");
+        let _ = fd;
+        alloc_fd()
+    }
+    unsafe fn k_mmap(_addr: *mut c_void, _len: size_t, _prot: c_int, flags: c_int, fd: c_int, _off: off_t) -> *mut c_void {
+        assert!(flags & MAP_SHARED != 0, "kani.ledger.mapping_is_shared");
+        assert!(fd >= 0 && (fd as usize) < NFD && OPEN[fd as usize], "kani.ledger.maps_an_owned_descriptor");
+        MMAP_CALLS += 1;
+        ptr::addr_of_mut!(MAP_BUF) as *mut c_void
+    }
+    #[kani::proof]
+    #[kani::stub(libc::close, k_close)]
+    #[kani::stub(libc::munmap, k_munmap)]
+    #[kani::stub(libc::mmap, k_mmap)]
+    #[kani::stub(libc::fcntl, k_fcntl_dup)]
+    #[kani::stub(libc::dup, k_dup_plain)]
+    #[kani::stub(std::thread::panicking, k_panicking)]
+    fn ledger_shared_memory_clone() {
+        let fd = unsafe { alloc_fd() };
+        let len: usize = kani::any();
+        let mut backing = [0u8; 1];
+        let ptr = if len > 0 { backing.as_mut_ptr() } else { ptr::null_mut() };
+        let shm = unsafe { OsIpcSharedMemory::from_raw_parts(ptr, len, BackingStore::from_fd(fd)) };
+        let c = shm.clone();
+        kani::cover!(len == 0, "cover.clone_of_empty_region");
+        kani::cover!(len > 4096, "cover.clone_of_large_region");
+        assert!(open_count() == 2, "kani.ledger.clone_owns_one_new_descriptor");
+        assert!(unsafe { MMAP_CALLS } == (if len > 0 { 1 } else { 0 }), "kani.ledger.clone_maps_iff_nonempty");
+        assert!(c.length == len, "kani.ledger.clone_same_length");
+        drop(c);
+        assert!(open_count() == 1 && unsafe { CLOSE_CALLS } == 1, "kani.ledger.clone_drop_closes_only_its_own_descriptor");
+        assert!(unsafe { MUNMAP_CALLS } == (if len > 0 { 1 } else { 0 }), "kani.ledger.clone_drop_unmaps_only_its_own_mapping");
+        mem::forget(shm);
+    }
+
     // ======================= K4a: UnixCmsg::recv at the syscall level (C10, C03) =======================
     static mut NONBLOCK: bool = false;
     static mut FCNTL_CALLS: usize = 0;
@@ -245,6 +290,8 @@ mod verif_kani {
         POLL_TIMEOUT = timeout;
         POLL_EVENTS = (*fds).events;
         POLL_NFDS = nfds as u64;
+        // whatever the kernel reports in revents (POLLIN, POLLHUP, POLLRDHUP, POLLERR ... in any combination)
+        (*fds).revents = kani::any();
         POLL_RET = kani::any();
         POLL_RET
     }
